@@ -19,6 +19,9 @@ CHECKS = {
     'C09': dict(level='model_checking', ref='7 C09', technique='TLA+ model (collision table, ConsistentAtRest, liveness under fairness) + TLC + replay of every transition; random walks with a lossless drain',
                 text=IKE + '; ConsistentAtRest is checked by TLC with the KnownToBoth trigger guard, EventuallyQuiescent under weak/strong fairness on a small instance; seeded random walks (lossless and lossy) end with a drain and a liveness probe and compare the two endpoints at rest.',
                 note='expire triggers restricted to CHILD_SAs known to both peers (carve-out of the property); internal IkeSaStateError teardowns (a request overtaking the IKE_AUTH response) are recorded as observations, not violations.'),
+    'C03': dict(level='model_checking', ref='7 C03', technique='TLA+ model (adversary action AdvForge, action property ForgeryHarmless) + TLC + replay with concrete forged datagrams; exhaustive forgery menu per keyed state',
+                text=IKE + ' - the adversary injects cleartext, foreign-key and reflected datagrams that pass every header check; in addition, at every (role, state) pair with keys the full menu of the property (every exchange type, flag, Message ID, payload list; bit flips, truncations, extensions of the authentic datagram in flight) is delivered and a snapshot incl. the liveness timer compared.',
+                note='a protocol error escaping dispatch_message counts as no reply here (whether the loop survives is C17); IKE_SA_INIT requests always create a new responder and are not messages for an existing IKE_SA.'),
     'C16': dict(level='model_checking', ref='7 C16', technique='TLA+ model (table as a sequence: NoDupTable, HeldAreListed, routing) + TLC + replay of every transition',
                 text=IKE + '; the IKE_SA table is compared as a sequence and the IKE_SA that processed each datagram is recorded.',
                 note='two endpoints; simultaneous initiations and rekeys give several IKE_SAs per endpoint.'),
